@@ -168,9 +168,26 @@ def run(run):
             ("class_and_style", "big_1 \t=  {x:y; z:w}", True, ("big_1", "x:y; z:w")), ("class_and_style", "a = {}", True, ("a", "")),
             ("class_and_style", "a = {x{y}}", False, None), ("class_and_style", "a = fill", False, None), ("class_and_style", "= {x}", False, None),
             ("class_and_style", "a {x}", False, None), ("class_and_style", "a = {x", False, None),
+            # the whole legend: the entries in order; text after the last well-formed entry does not undo the entries before it
+            # (the caller draws the *whole* input, legend included, when this grammar fails)
+            ("<legend>", "# Legend:\na = {x}\nb = {y}\n", True, [("a", "x"), ("b", "y")]),
+            ("<legend>", "# Legend:\na = {x}", True, [("a", "x")]),
+            ("<legend>", "# Legend:\na = {x}\n\nb = {y}\n", True, [("a", "x")]),
+            ("<legend>", "# Legend:\na = {x}\nsome note\n", True, [("a", "x")]),
+            ("<legend>", "# Legend:\na = {x}\nnot-a-name = {y}\n", True, [("a", "x")]),
+            ("<legend>", "# Legend:\na = {x}\nb = {y{z}}\n", True, [("a", "x")]),
+            ("<legend>", "Legend:\na = {x}\n", False, None),
         ]
         n = 0
+        from ..grammar import entry_grammar
+        legend_g = entry_grammar(prog, "util::parser::parse_css_legend")
+        if legend_g is None:
+            run.missing("C16.L3", "grammar run by parse_css_legend")
         for gname, text, want_ok, want_out in W:
+            if gname == "<legend>":
+                if legend_g is None:
+                    continue
+                gname = legend_g
             if gname not in g.fns:
                 run.missing("C16.L3", "grammar " + gname)
                 continue
@@ -182,6 +199,8 @@ def run(run):
             n += 1
             if isinstance(out, tuple):
                 out = tuple(out)
+            if isinstance(want_out, list) and isinstance(out, list):
+                out = [tuple(x) if isinstance(x, (list, tuple)) else x for x in out]
             good = (ok == want_ok) and (not want_ok or out == want_out or (isinstance(want_out, tuple) and tuple(out) == want_out))
             if good:
                 run.ok("C16.L3", "%s on %r" % (gname, text), gfile, "-> %s" % (repr(out) if ok else "rejected"), nontrivial=True)
